@@ -107,7 +107,7 @@ func keysReadIn(info *types.Info, n ast.Node) map[string]bool {
 		if f == nil {
 			return true
 		}
-		switch f.Name() {
+		switch core.N(f) {
 		case "getMapValue", "getMapValueString", "getMapSliceValue":
 			if len(call.Args) == 2 {
 				k := constString(info, call.Args[1])
@@ -162,11 +162,11 @@ func c08Fields(c *core.Ctx, r *core.Reporter) {
 			read := core.FieldsRead(info, []ast.Node{cl})["ast."+k]
 			var miss []string
 			for _, f := range core.Fields(n) {
-				if f.Name() == "Kind" || f.Name() == "Loc" {
+				if core.N(f) == "Kind" || core.N(f) == "Loc" {
 					continue
 				}
-				if !read[f.Name()] {
-					miss = append(miss, f.Name())
+				if !read[core.N(f)] {
+					miss = append(miss, core.N(f))
 				}
 			}
 			r.Check(len(miss) == 0, "fields/"+k, cl.Pos(), "leaf arm reads every payload field",
@@ -188,15 +188,15 @@ func c08Fields(c *core.Ctx, r *core.Reporter) {
 		}
 		fieldSet := map[string]*types.Var{}
 		for _, f := range core.Fields(n) {
-			fieldSet[f.Name()] = f
-			if f.Name() == "Kind" || f.Name() == "Loc" {
+			fieldSet[core.N(f)] = f
+			if core.N(f) == "Kind" || core.N(f) == "Loc" {
 				continue
 			}
-			if !isNodeish(c, f.Type()) && !(k == "FragmentDefinition" && f.Name() == "Operation") {
+			if !isNodeish(c, f.Type()) && !(k == "FragmentDefinition" && core.N(f) == "Operation") {
 				// scalar payload (Operation, Value); FragmentDefinition.Operation is the same constant for every fragment
-				want[f.Name()] = true
+				want[core.N(f)] = true
 			}
-			if f.Name() == "Description" {
+			if core.N(f) == "Description" {
 				want["Description"] = true
 			}
 		}
@@ -260,14 +260,14 @@ func c08Escape(c *core.Ctx, r *core.Reporter) {
 			"fmt.Sprintf":           `(%q) \a \v \xNN \UNNNNNNNN`,
 			"encoding/json.Marshal": `(HTML escapes, invalid UTF-8 replaced)`,
 		}
-		name := quoter.Pkg().Path() + "." + quoter.Name()
+		name := quoter.Pkg().Path() + "." + core.N(quoter)
 		r.Bad("StringValue/quoter", cl.Pos(), "string values are quoted with %s, whose escape alphabet includes %s — sequences the GraphQL lexer rejects: a value containing such characters prints as text that does not parse back", name, std[name])
 		return
 	}
-	r.OK("StringValue/quoter", cl.Pos(), "quoted by library function %s", quoter.Name())
+	r.OK("StringValue/quoter", cl.Pos(), "quoted by library function %s", core.N(quoter))
 	// writer alphabet: string constants `\x…` in the quoter's body
 	rel, _ := core.RelOfPkg(quoter.Pkg())
-	pq, qd := c.FindDecl(rel, quoter.Name())
+	pq, qd := c.FindDecl(rel, core.N(quoter))
 	if qd == nil {
 		r.Unknown("StringValue/alphabet", cl.Pos(), "quoter body not found")
 		return
@@ -340,7 +340,7 @@ func c08Escape(c *core.Ctx, r *core.Reporter) {
 	r.Check(hasCtl && escapesChar['\n'] && escapesChar['\r'], "StringValue/escapes-control", qd.Pos(), "line terminators and all control characters below U+0020 are escaped",
 		"the string writer does not escape every control character below U+0020 (the lexer rejects them raw and a newline ends the string)")
 	// no exit of the quoter returns the input text itself (whole, concatenated or sliced): every byte goes through the escaping switch
-	if qf := c.Func(rel, quoter.Name()); qf != nil {
+	if qf := c.Func(rel, core.N(quoter)); qf != nil {
 		var raw *ssa.Return
 		for _, ret := range core.Returns(qf) {
 			if len(ret.Results) == 1 && carriesStringParam(core.RetVal(ret, 0), map[ssa.Value]bool{}) && raw == nil {
@@ -348,7 +348,7 @@ func c08Escape(c *core.Ctx, r *core.Reporter) {
 			}
 		}
 		if raw != nil {
-			r.Bad("StringValue/no-raw-return", raw.Pos(), "%s has an exit that returns its input text itself (a fast path around the escaping loop): whatever that path's test does not list — the control characters U+0000-U+0007, U+000B, U+000E-U+001F among them — is printed raw and the lexer rejects it", quoter.Name())
+			r.Bad("StringValue/no-raw-return", raw.Pos(), "%s has an exit that returns its input text itself (a fast path around the escaping loop): whatever that path's test does not list — the control characters U+0000-U+0007, U+000B, U+000E-U+001F among them — is printed raw and the lexer rejects it", core.N(quoter))
 		} else {
 			r.OK("StringValue/no-raw-return", qd.Pos(), "every exit returns text assembled by the escaping loop")
 		}
@@ -395,13 +395,13 @@ func c08BlockQuote(c *core.Ctx, r *core.Reporter) {
 			return true
 		}
 		f := core.CalleeObj(info, call)
-		if f != nil && f.Pkg() != nil && f.Pkg().Path() == "strings" && (f.Name() == "Replace" || f.Name() == "ReplaceAll") && len(call.Args) >= 3 {
+		if f != nil && f.Pkg() != nil && f.Pkg().Path() == "strings" && (core.N(f) == "Replace" || core.N(f) == "ReplaceAll") && len(call.Args) >= 3 {
 			if constString(info, call.Args[1]) == `"""` && strings.Contains(constString(info, call.Args[2]), `\"""`) {
 				replPos = call.Pos()
 			}
 		}
 		// wrapping: a composite literal / concatenation containing the `"""` constant
-		if f != nil && f.Name() == "join" {
+		if f != nil && core.N(f) == "join" {
 			if strings.Count(core.ExprString(call), "`\"\"\"`") >= 2 || strings.Contains(core.ExprString(call), `"\"\"\""`) {
 				wrapPos = call.Pos()
 			}
@@ -533,7 +533,7 @@ func c08ShortForm(c *core.Ctx, r *core.Reporter) {
 					return true
 				}
 				f := core.CalleeObj(info, call)
-				if f == nil || f.Name() != "join" || len(call.Args) == 0 {
+				if f == nil || core.N(f) != "join" || len(call.Args) == 0 {
 					return true
 				}
 				ast.Inspect(call.Args[0], func(m ast.Node) bool {
@@ -595,10 +595,10 @@ func c08ShortForm(c *core.Ctx, r *core.Reporter) {
 			}
 			sort.Strings(miss)
 			n++
-			key := fmt.Sprintf("short-form#%d/%s", n, x.Name())
+			key := fmt.Sprintf("short-form#%d/%s", n, core.N(x))
 			r.Check(len(miss) == 0, key, ifs.Pos(),
-				fmt.Sprintf("the branch printing %s alone tests every other part of the long form (%d parts)", x.Name(), len(ps)-1),
-				fmt.Sprintf("the branch that prints %s alone does not test %s, which the long form prints: whenever that part is non-empty it is silently dropped from the printed text (the text still parses, to a different document)", x.Name(), core.Join(miss)))
+				fmt.Sprintf("the branch printing %s alone tests every other part of the long form (%d parts)", core.N(x), len(ps)-1),
+				fmt.Sprintf("the branch that prints %s alone does not test %s, which the long form prints: whenever that part is non-empty it is silently dropped from the printed text (the text still parses, to a different document)", core.N(x), core.Join(miss)))
 			return true
 		})
 	}
